@@ -128,7 +128,31 @@ package witness
 //@ assume func tlog.ReadTileData params t r
 //@   ensures (ret1 == nil && typeof(r) == typeid("*torchwood.HashReaderOverlay")) ==> ret0 == tileDataOf(t, cast(r, "*torchwood.HashReaderOverlay").gseq)
 
+//@ pure func mirrorTileKey(o string, t tlog.Tile) string = "mirror/" + originHashOf(o) + "/" + twTilePath(t)
+//@ pure func mirrorDataKey(o string, t tlog.Tile) string
+// mirrorDataKey(o, t) names the key of the entry bundle that goes with the level-0 hash tile t: the same tile at level -1
+//@ axiom mirror-data-key-definition: forall o string, t tlog.Tile, d tlog.Tile {mirrorDataKey(o, t), twTilePath(d)} :: (d.H == t.H && d.L == -1 && d.N == t.N && d.W == t.W) ==> mirrorDataKey(o, t) == "mirror/" + originHashOf(o) + "/" + twTilePath(d)
+//@ ghost var gPkgOK int
+// package-level test hook (nil outside tests): no effect on witness state
+//@ assume func witness.testingOnlyBeforeAddEntriesPackage
+//@ func witness.(*Witness).processAddEntriesPackages props C15
+//@   requires w != nil && w.c != nil && pending != nil && !held(&w.logsMu) && !held(&stateOf(w, pending.Origin).mu)
+//@   init gPkgOK == 0
+//@   invariant "range numPackages" [C15] every-package-so-far-went-through-authentication: gPkgOK == rangeindex && 0 <= rangeindex && rangeindex < numPackages && hashReader != nil && !held(&w.logsMu) && !held(&stateOf(w, pending.Origin).mu)
+//@   call witness.(*Witness).processAddEntriesPackage requires [C15] packages-in-order-each-exactly-once: gPkgOK == i && c_tileStart == roundedStart + i * 256 && c_end <= uploadEnd && c_end <= c_tileStart + 256 && (c_end == uploadEnd || c_end == c_tileStart + 256) && c_hashReader == hashReader && c_pending == pending && c_proof == proof && c_entries == entries
+//@   returns [C15] success-only-after-every-package-was-authenticated-and-stored: ret == nil ==> (uploadStart >= uploadEnd || gPkgOK == numPackages)
+// The hash overlay that later packages and all derived tiles build on is extended only by processAddEntriesPackage,
+// i.e. only with record hashes that are then authenticated against the checkpoint before anything is stored.
+//@ census [C15] overlay-extended-only-inside-authenticated-packages: callers torchwood.(*HashReaderOverlay).AppendRecordHash within witness.(*Witness).processAddEntriesPackage in witness
+//@ census [C15] package-callers: callers witness.(*Witness).processAddEntriesPackage within witness.(*Witness).processAddEntriesPackages in witness
+
 //@ func witness.(*Witness).processAddEntriesPackage props C15
+//@   modifies gPkgOK
+//@   defines ret == nil ==> gPkgOK == old(gPkgOK) + 1
+//@   defines ret != nil ==> gPkgOK == old(gPkgOK)
+//@   ensures [C15] leaves-the-locks-free: !held(&w.logsMu) && !held(&stateOf(w, pending.Origin).mu)
+//@   invariant "range newTiles" [C15] every-new-tile-so-far-is-stored: rangeindex < len(newTiles) && (forall j int :: (0 <= j && j <= rangeindex) ==> (gUp[mirrorTileKey(pending.Origin, newTiles[j])] && (newTiles[j].L == 0 ==> gUp[mirrorDataKey(pending.Origin, newTiles[j])])))
+//@   returns [C15] success-only-after-every-new-tile-is-stored: ret == nil ==> (forall j int :: (0 <= j && j < len(newTiles)) ==> (gUp[mirrorTileKey(pending.Origin, newTiles[j])] && (newTiles[j].L == 0 ==> gUp[mirrorDataKey(pending.Origin, newTiles[j])])))
 //@   requires w != nil && w.c != nil && pending != nil && hashReader != nil && !held(&w.logsMu) && !held(&stateOf(w, pending.Origin).mu)
 //@   init gUp == emptyset("set[string]") && gUpTried == emptyset("set[string]")
 //@   call torchwood.CheckSubtree requires [C15] proof-is-for-the-resolved-checkpoint-and-this-range: c_t == pending.N && c_th == pending.Hash && c_start == tileStart && c_end == end && c_p == proof && c_sh == subtreeHash
